@@ -43,7 +43,8 @@ import (
 
 func init() { Register("C09", Domain{Gen: c09Gen, Run: c09Run}) }
 
-const c09StepTimeout = 5 * time.Second
+// every wait ends on its event; the limits are only there for requests that really hang (scaled by HX_TIMEOUT_SCALE)
+var c09StepTimeout = HxScale(12 * time.Second)
 
 var c09Names = []string{"A", "B", "C", "D"}
 var c09Cfgs = []string{"p0", "pN", "m"}
@@ -302,7 +303,7 @@ func (st *c09State) settle() bool {
 				return true
 			}
 			quiet = true
-			grace = time.After(40 * time.Millisecond)
+			grace = time.After(HxScale(40 * time.Millisecond))
 		} else {
 			quiet = false
 		}
@@ -414,7 +415,7 @@ func (st *c09State) endCase() {
 	}
 	st.mu.Unlock()
 	// let every parked goroutine run to completion
-	deadline := time.After(3 * time.Second)
+	deadline := time.After(HxScale(6 * time.Second))
 	pending := 0
 	for _, t := range ths {
 		if t.at != "done" && t.at != "" {
@@ -435,7 +436,7 @@ func (st *c09State) endCase() {
 				pending--
 			}
 		case <-st.events:
-		case <-time.After(20 * time.Millisecond):
+		case <-time.After(HxScale(20 * time.Millisecond)):
 		case <-deadline:
 			pending = 0
 		}
@@ -533,7 +534,7 @@ func (st *c09State) stress(writers, nkeys, per int) string {
 	go func() { wg.Wait(); close(fin) }()
 	select {
 	case <-fin:
-	case <-time.After(90 * time.Second):
+	case <-time.After(HxScale(180 * time.Second)):
 		st.dead = true
 		return "timeout"
 	}
@@ -744,7 +745,7 @@ func (st *c09State) mixed(writers, per int, seed int64) string {
 	go func() { wg.Wait(); close(fin) }()
 	select {
 	case <-fin:
-	case <-time.After(60 * time.Second):
+	case <-time.After(HxScale(120 * time.Second)):
 		st.dead = true
 		return "timeout"
 	}
@@ -869,7 +870,7 @@ func c09Run(in *bufio.Scanner, w *bufio.Writer) {
 				st.threads.Register("init")
 				if !st.setInt("z", 0) || !st.setInt("k", 5) {
 					// a loaded machine: once more before giving the case up
-					time.Sleep(300 * time.Millisecond)
+					time.Sleep(HxScale(300 * time.Millisecond))
 					if !st.setInt("z", 0) || !st.setInt("k", 5) {
 						st.dead = true
 					}
@@ -895,7 +896,7 @@ func c09Run(in *bufio.Scanner, w *bufio.Writer) {
 			continue
 		}
 		if st.dead {
-			fmt.Fprintln(w, "skip")
+			fmt.Fprintln(w, "err skip") // the case could not be set up (a request timed out)
 			continue
 		}
 		switch {
